@@ -408,7 +408,7 @@ pub fn items(include_b: bool) -> Vec<Item> {
     let mut cases = corpus::corpus_a();
     // parameter variants are examples too (their labels are rewritten to A:.. so that they get lifted as well)
     // the quick tier takes a seeded 40 % of the parameter variants (each costs fresh golden processes)
-    let quick = std::env::var("VERIF_TIER").map(|t| t != "thorough").unwrap_or(true) && !std::env::args().any(|a| a == "thorough");
+    let quick = QUICK_TIER.load(std::sync::atomic::Ordering::SeqCst);
     let vseed = std::env::var("VERIF_SEED").ok().and_then(|s| s.trim().parse::<u64>().ok()).unwrap_or(1);
     let variants: Vec<Case> = corpus::corpus_a_param_variants()
         .into_iter()
